@@ -353,6 +353,10 @@ class IfgModel:
         """relative tolerance of value comparisons: 1e-9 while the data is float64 (>= 1e6 eps), 2e-4 (~1700 eps) while it is float32"""
         return 1e-9 if self.ifg.data.dtype.itemsize >= 8 else 2e-4
 
+    def _floor(self):
+        """absolute floor of value comparisons: 64 smallest normal numbers of the data's dtype (data that has sunk into the subnormal range has no relative precision)"""
+        return 64 * float(np.finfo(self.ifg.data.dtype).tiny) if self.ifg.data.dtype.kind == 'f' else 0.0
+
     def _arg_unchanged(self, fn, name, arg, want):
         """an array-like argument must come back as it was handed over"""
         if isinstance(arg, np.ndarray):
@@ -569,7 +573,11 @@ class IfgModel:
         d = self.ifg.data[v].astype(np.float64)
         if np.all(np.isfinite(d)):   # otherwise the validity invariant reports it
             m = float(d.mean())
-            ctx.within(abs(m), self._rt() * scale, 'remove_piston:mean', 'mean after remove_piston %.3g (data scale %.3g)' % (m, scale))
+            # data whose magnitude has sunk into the subnormal range of its own dtype (float32 residue of order 1e-44 after several removals and a
+            # fill) has no relative precision left: the comparison carries the floor of 64 smallest normal numbers of that dtype
+            # (false alarm of a thorough background run, kept as a must-pass replay)
+            floor = 64 * float(np.finfo(self.ifg.data.dtype).tiny) if self.ifg.data.dtype.kind == 'f' else 0.0
+            ctx.within(abs(m), self._rt() * scale + floor, 'remove_piston:mean', 'mean after remove_piston %.3g (data scale %.3g)' % (m, scale))
 
     def op_remove_tiptilt(self, op):
         ctx = self.ctx
@@ -590,7 +598,7 @@ class IfgModel:
         if determined and np.all(np.isfinite(d)):
             c = np.linalg.lstsq(A, d, rcond=None)[0]
             resid = max(abs(float(c[0])) * float(np.abs(A[:, 0]).max()), abs(float(c[1])) * float(np.abs(A[:, 1]).max()))
-            ctx.within(resid, 10 * self._rt() * scale, 'remove_tiptilt:idempotent',
+            ctx.within(resid, 10 * self._rt() * scale + self._floor(), 'remove_tiptilt:idempotent',
                         're-fit of a*x+b*y after remove_tiptilt finds a=%.3g b=%.3g (%.3g over the aperture, data scale %.3g)' % (c[0], c[1], resid, scale))
 
     def op_remove_power(self, op):
@@ -611,7 +619,7 @@ class IfgModel:
         if determined and np.all(np.isfinite(d)):
             c = np.linalg.lstsq(A, d, rcond=None)[0]
             resid = abs(float(c[0])) * float(rho2.max())
-            ctx.within(resid, 10 * self._rt() * scale, 'remove_power:idempotent',
+            ctx.within(resid, 10 * self._rt() * scale + self._floor(), 'remove_power:idempotent',
                         're-fit of c*rho^2 + const after remove_power finds c=%.3g (%.3g at the edge, data scale %.3g)' % (c[0], resid, scale))
 
     def op_recenter(self, op):
